@@ -23,7 +23,7 @@ META = dict(
     bounds=dict(quick='L1: concatenate of 2 and 3 parts, map: lengths and index unbounded; batch bs 1..3: non-negative index unbounded, len/negative index at length <= 12; zip length <= 12; cache length <= 6; slice/intersperse lengths <= 3/4; '
                       'L2: depth-1 programs n<=3 and op-class pairs (n=2), one symbolic index; numpy integer index over [-n-2, n+2) at depth 1; '
                       'E3: L < 2^16, b in 1..4',
-                thorough='L1 as quick with batch bs 1..4; L2: all depth-2 pairs n<=3; E3: L < 2^31, b in 1..8'),
+                thorough='L1 as quick with batch bs 1..4; L2: all depth-2 pairs (dict-backed n in {1,3}, list-backed n=2); E3: L < 2^31, b in 1..8'),
     outside=['batch sizes > 4 at L1', 'L >= 2^31 for the float formula', 'depth > 2 at L2'],
 )
 
@@ -263,7 +263,7 @@ def _l2_conditions(tier, seed):
             add('dict', 2, (a, b))
     else:
         for backing in ('list', 'dict'):
-            for n in (1, 2, 3):
+            for n in ((1, 3) if backing == 'dict' else (2,)):
                 for a in U.ALPHABET:
                     for b in U.ALPHABET:
                         if a[0] in sel and b[0] in sel and n > 2:
